@@ -400,3 +400,41 @@ def instantiate_qfacts(interp, path, index_terms):
                 v = seq.at(interp, idx)
                 out.append(z3.Implies(z3.And(b, ie >= 0, ie < ne), other.mem(zexpr(v))))
     return out
+
+
+class SymDict:
+    """A dict whose keys are symbolic symbols: lookup decides equality with the stored keys (forks)."""
+
+    def __init__(self):
+        self.items = []
+
+    def __pyvc_contains__(self, interp, x):
+        cs = [zexpr(x) == zexpr(k) for k, _ in self.items]
+        if not cs:
+            return False
+        return Z(z3.Or(*cs)) if len(cs) > 1 else Z(cs[0])
+
+    def __pyvc_getitem__(self, interp, k, node):
+        for key, val in self.items:
+            if interp.path.decide(zexpr(k) == zexpr(key)):
+                return val
+        raise PyRaise("KeyError", repr(k), node)
+
+    def __pyvc_setitem__(self, interp, k, v):
+        for i, (key, _) in enumerate(self.items):
+            if z3.is_true(z3.simplify(zexpr(k) == zexpr(key))):
+                self.items[i] = (key, v)
+                return
+        self.items.append((k, v))
+
+    def __pyvc_getattr__(self, interp, name, node):
+        if name == "get":
+            from .interp import Native
+
+            def get(it, a, kw):
+                for key, val in self.items:
+                    if it.path.decide(zexpr(a[0]) == zexpr(key)):
+                        return val
+                return a[1] if len(a) > 1 else None
+            return Native("get", get)
+        raise OutOfSubset("SymDict." + name)
